@@ -21,10 +21,11 @@ from ..core import ROOT, Check, Driver, HarnessError, ddmin, proof_stage
 
 PROP = "C12"
 DRIVER = Driver("driver_c12", "Drivers/C12.lean")
-CFGS = ["shared", "separate", "shared_secret", "shared_purge", "separate_purge"]
+CFGS = ["shared", "separate", "shared_secret", "shared_purge", "separate_purge", "split", "split_tags"]
+EXH_CFGS = ["separate", "shared", "split_tags", "split"]
 # the layout strat stores [datetime, result] (early / soft): not with the pickling serializer of shared_secret (the virtual
 # clock replaces datetime.datetime, which pickle cannot look up)
-STRAT_CFGS = ["shared", "separate", "shared_purge", "separate_purge"]
+STRAT_CFGS = ["shared", "separate", "split", "split_tags", "shared_purge", "separate_purge"]
 OPT_LAYOUTS = ["strat+upper", "strat+lock", "strat+unprot", "strat+tc", "strat+upper+tc", "strat+upper+lock", "strat+upper+unprot+tc"]
 LAYOUTS = ["plain", "templ", "decor", "mut"]
 BIGS = [100, 101, 150, 200, 201, 230]
@@ -312,7 +313,7 @@ def run(chk: Check) -> int:
         cases.append((f"gen:{i}", cfg, lay, taghist.gen_history(rng, layout(lay), maxlen)))
     for i in range(nbig):
         lay = f"big:{BIGS[i % len(BIGS)]}"
-        cases.append((f"big:{i}", CFGS[i % 2], lay, taghist.gen_big(rng, layout(lay))))
+        cases.append((f"big:{i}", ["shared", "separate", "split"][i % 3], lay, taghist.gen_big(rng, layout(lay))))
     for i in range(nunreg):
         cases.append((f"unreg:{i}", CFGS[i % 2], "unreg", taghist.gen_history(rng, layout("unreg"), 16, registered_only=False)))
 
@@ -334,14 +335,14 @@ def run(chk: Check) -> int:
     nopts = chk.budget(420, 4000)
     for i in range(nopts):
         lay = OPT_LAYOUTS[i % len(OPT_LAYOUTS)]
-        cfgs = STRAT_CFGS[:2] if "tc" in lay else STRAT_CFGS      # bodies that take time: purge task off
+        cfgs = STRAT_CFGS[:4] if "tc" in lay else STRAT_CFGS      # bodies that take time: purge task off
         cfg = cfgs[(i // len(OPT_LAYOUTS)) % len(cfgs)]
         gen = taghist.gen_refresh if i % 3 else (lambda rng, l: taghist.gen_strat_history(rng, l, 24))
         cases.append((f"opts:{i}", cfg, lay, gen(rng, layout(lay))))
     exh3_len = chk.budget(4, 5)
     exh3, nalpha3 = taghist.exhaustive_refresh_cases(layout("strat"), exh3_len)
     for i, ops in enumerate(exh3):
-        cases.append((f"exh3:{i}", "shared" if i % 2 else "separate", "strat", ops))
+        cases.append((f"exh3:{i}", EXH_CFGS[i % 4], "strat", ops))
 
     nnl = chk.budget(150, 2000)
     for i in range(nnl):
@@ -351,11 +352,11 @@ def run(chk: Check) -> int:
     exh_len = chk.budget(3, 4)
     exh, nalpha = exhaustive_cases(exh_len)
     for i, ops in enumerate(exh):
-        cases.append((f"exh:{i}", "shared" if i % 2 else "separate", "plain", ops))
+        cases.append((f"exh:{i}", EXH_CFGS[i % 4], "plain", ops))
     exh2_len = chk.budget(3, 4)
     exh2, nalpha2 = exhaustive_removal_cases(exh2_len)
     for i, ops in enumerate(exh2):
-        cases.append((f"exh2:{i}", "shared" if i % 2 else "separate", "plain", ops))
+        cases.append((f"exh2:{i}", EXH_CFGS[i % 4], "plain", ops))
 
     found = 0
     evaluations = 0
@@ -435,6 +436,11 @@ def run(chk: Check) -> int:
         found += 1
         chk.violation("delete_tags contradicts the property (complete) through the key-prefix middleware: a key written with a tag is still readable after "
                       f"delete_tags ({probe['observed']}; set_add and set_pop address different tag sets)", probe, signature="C12:add-prefix-middleware-renames-set-add-key")
+    dprobe = taghist.disabled_incr_probe()
+    if dprobe is not None:
+        found += 1
+        chk.violation("delete_tags contradicts the property (precise): a key that never carried the tag - the tagged incr was issued while INCR was disabled and "
+                      f"wrote nothing - is deleted by delete_tags (get -> {dprobe['observed']})", dprobe, signature="D73:disabled-incr-files-membership")
     if interesting.get("SET_GONE_WHILE_MEMBER_ALIVE") and not found:
         raise HarnessError("a tag set was gone while a carrier was alive, yet no violation was derived - oracle bug")
     if proof is not None:
@@ -462,7 +468,7 @@ def run(chk: Check) -> int:
                 "recreate (tagged write, one explicit removal path - delete / delete_many / delete_match exact / delete_match glob / delete_tags of "
                 "another carried tag -, re-creation without the tag, delete_tags, with noise) and mutcall (decorated calls with mutating bodies and "
                 "controls, delete_tags of a tag rendered from the call-time arguments, probes and a further call); generated from "
-                "VERIF_SEED, round-robin over configurations " + ",".join(CFGS) + "; a case is non-trivial iff it contains a delete_tags and reached "
+                "VERIF_SEED, round-robin over configurations " + ",".join(CFGS) + " (split / split_tags: the keys under one prefix of the layout live in a second, prefix-routed data backend)" + "; a case is non-trivial iff it contains a delete_tags and reached "
                 "at least one interesting state listed in interesting_states_cases (other than a decorator hit); distinct = distinct (config, layout, op list)",
         "samples": samples,
         "corpus_cases": ncorpus,
@@ -479,6 +485,7 @@ def run(chk: Check) -> int:
         "cases_by_stream": by_stream,
         "cases_by_wrapping_option": by_option,
         "observed_not_judged": taghist.not_judged_probes(),
+        "disabled_incr_probe": "a tagged incr that is disabled files no membership" if dprobe is None else dprobe,
         "prefix_middleware_probe": "delete_tags finds the members through add_prefix" if probe is None else probe,
         "delete_tags_commands_judged": deltags_checked,
         "op_histogram": hist,
